@@ -281,6 +281,15 @@ def run_check(check_id, tier, seed, list_signatures=False, jobs=None, budget=Non
     env.assert_physt_source()
     if budget is None:
         budget = getattr(mod, "BUDGET", {}).get(tier, 300 if tier == "quick" else 3600)
+    # the budget is a safety net against runaway exploration, not a verdict: on a machine that is busy with other work
+    # (load above the core count) it is stretched, so that a slow machine does not silently explore less (a capped run
+    # says capped=True, but says nothing about what it did not reach)
+    try:
+        load = os.getloadavg()[0] / (os.cpu_count() or 1)
+    except OSError:
+        load = 0.0
+    if load > 1.0 and not os.environ.get("VERIF_STRICT_BUDGET"):
+        budget *= min(4.0, load)
     deadline = t0 + budget
     units = mod.units(tier, seed)
     n = len(units)
